@@ -87,6 +87,7 @@ def check_node(orig, back, trip, path, pr, json_reprable):
         for x, y in zip(orig.args, back.args):
             if eq_args(x, y) or (isinstance(y, str) and not isinstance(x, str)): continue
             if isinstance(x, (list, tuple)) and isinstance(y, (list, tuple)) and eq_args(list(x), list(y)): continue
+            if type(back) is not type(orig) and isinstance(y, str) and tn in y: continue          # a stand-in (same-named or generic) whose text names the original class together with the stored arguments: allowed by the statement
             pr.append(f"C19: {trip}: {path}: argument {_s(repr, x)} of {tn} came back as {_s(repr, y)} (neither equal nor its text form)")
 
 def graphs(seed):
